@@ -6,7 +6,7 @@
 id=$1; wt=$2; budget=$3; shift 3
 S=/verif/seeded/$id
 mkdir -p $S
-( cd $wt && git diff -- . ':(exclude)*_test.go' > $S/patch.diff )
+if [ -f $wt/mutation.patch ]; then cp $wt/mutation.patch $S/patch.diff; else ( cd $wt && git diff -- . ":(exclude)*_test.go" > $S/patch.diff ); fi
 demo=$(cd $wt && git status --porcelain | grep '^??' | awk '{print $2}' | grep '_test.go$' | head -1)
 [ -n "$demo" ] && cp $wt/$demo $S/$(basename $demo).txt
 [ -f $wt/MUTATION.md ] && cp $wt/MUTATION.md $S/MUTATION.md
